@@ -10,11 +10,11 @@ import random
 import re
 
 CLASSES = {
-    "torn": ["zero", "truncate", "tail", "dup_block", "open_construct", "open_construct", "fragment_only"],
+    "torn": ["zero", "truncate", "tail", "dup_block", "open_construct", "open_construct", "fragment_only", "no_final_newline"],
     "corrupt": ["flip", "bad_utf8", "nul", "bom8", "bom16", "crlf", "mixed_eol", "lone_cr", "ws_only", "binary", "escape_in_string",
                 "odd_separators", "odd_separators", "non_ascii"],
     "grammar": ["del_line", "dup_line", "del_token", "dup_token", "unbalance", "drop_close", "dedent",
-                "swap_ext", "shebang", "del_char", "dup_char", "del_punct", "stray_line", "truncate_line", "num_mangle", "num_mangle", "run_small", "run_small"],
+                "swap_ext", "shebang", "del_char", "dup_char", "del_punct", "stray_line", "truncate_line", "num_mangle", "num_mangle", "run_small", "run_small", "odd_directive", "odd_directive"],
     "blowup": ["nest", "chain", "long_line", "many_funcs", "deep_parens", "deep_list", "long_run", "long_run", "huge_number"],
 }
 KIND_CLASS = {k: c for c, ks in CLASSES.items() for k in ks}
@@ -60,6 +60,8 @@ def draw_fault(t, data: bytes, lang: str, allow_blowup: bool = True, force_blowu
         p = [t.draw(P, "fault.pos"), t.draw(6, "fault.what")]
     elif kind == "fragment_only":
         p = [t.draw(14, "fault.frag")]
+    elif kind == "odd_directive":
+        p = [t.draw(P, "fault.pos"), t.draw(16, "fault.which"), t.draw(3, "fault.place")]
     elif kind == "num_mangle":
         p = [t.draw(P, "fault.pos"), t.draw(12, "fault.how")]
     elif kind == "stray_line":
@@ -199,6 +201,28 @@ def apply(f: dict, data: bytes, lang: str) -> bytes:
         rs = [b"// only a comment", b"//! inner doc", b"#[derive(Debug)]", b"fn f() {", b"impl A {", b"if x {", b"let x =", b"|| ",
               b"pub use", b"use std::{", b"match x {", b"struct S<", b"mod m;", b"unsafe {"]
         return (py if lang == "python" else rs if lang == "rust" else ts)[p[0] % 14] + b"\n"
+    if k == "no_final_newline":
+        return data.rstrip(b"\r\n")
+    if k == "odd_directive":
+        # a suppression / tool comment that is cut short, never closed, oversized or full of pattern metacharacters
+        cm = b"# " if lang == "python" else b"// "
+        d = [b"thailint: ignore[", b"thailint: ignore-start", b"thailint: ignore-start dry nesting", b"thailint: ignore[" + b"rule-x," * 800 + b"]",
+             b"thailint: ignore[a.*(b, [x-, +?]", b"thailint: ignore-next-line[", b"thailint: ignore-file[", b"thailint: ignore-end",
+             b"dry: ignore-block", b"dry: ignore-next", b"noqa: E501,", b"type: ignore[", b"pylint: disable=", b"nosec",
+             b"eslint-disable-next-line", b"@ts-ignore thailint: ignore[*]"][p[1] % 16]
+        line = cm + d
+        ls = _lines(data)
+        place = p[2] % 3
+        if place == 0:
+            i = (p[0] * (len(ls) + 1)) >> 20
+            ls[i:i] = [line]
+            return b"\n".join(ls)
+        if place == 1:            # trailing comment on an existing line
+            i = (p[0] * max(1, len(ls))) >> 20
+            if ls:
+                ls[min(i, len(ls) - 1)] += b"  " + line
+            return b"\n".join(ls)
+        return data.rstrip(b"\n") + b"\n" + line     # last line of the file, no final newline
     if k == "num_mangle":
         # damage inside one numeric literal: what a lost or doubled keystroke does to a number
         nums = list(re.finditer(rb"(?<![A-Za-z_0-9.])\d[\d_]*(?:\.\d+)?(?:[eE][+-]?\d+)?", data))
